@@ -253,6 +253,17 @@ func (e *Engine) Run(t *core.Tape, cfg *core.Config, st *core.Stats) (viol *core
 	if err := L.DoString(prelude); err != nil {
 		panic(err)
 	}
+	// injected fault: a one-shot error raised at a chosen instruction boundary (inside a running loader)
+	var steps, faultAt int64
+	faultFired := false
+	lua.VerifSetStepHook(L, func(L *lua.LState) {
+		steps++
+		if faultAt != 0 && steps == faultAt {
+			faultAt = 0
+			faultFired = true
+			L.RaiseError("SIMFAULT injected into a running loader")
+		}
+	})
 	pathVal := filepath.Join(dir, "?.lua") + ";" + filepath.Join(dir, "?", "init.lua")
 	L.SetField(L.GetGlobal("package"), "path", lua.LString(pathVal))
 	ms := &mstate{loaded: map[string]string{}, poisoned: map[string]bool{}, files: map[string]*beh{}, isDir: map[string]bool{}, preload: map[string]*beh{}}
@@ -316,6 +327,63 @@ func (e *Engine) Run(t *core.Tape, cfg *core.Config, st *core.Stats) (viol *core
 		fpath := filepath.Join(dir, fileKey(name)+".lua")
 		switch k := t.Weighted([]int{8, 5, 1, 1, 3, 2, 2, 1}); k {
 		case 0: // require
+			if !reduced && t.Choose(6) == 0 {
+				// require with an error injected at an arbitrary instruction while loaders run
+				before := map[string]string{}
+				for _, n := range names {
+					before[n] = ms.loaded[n]
+				}
+				faultFired = false
+				faultAt = steps + 8 + int64(t.Choose(60))
+				res, v := runLua(fmt.Sprintf("return req(%q)", name))
+				faultAt = 0
+				if v != nil && v.Class == "unexpected-error" && strings.Contains(v.Detail, "SIMFAULT") {
+					// the injected error landed in the harness snippet around require, not inside it
+					v, res = nil, "err\x01(fault in the harness snippet)\x01\x01"
+					if _, v2 := runLua("LOG = {}; return \"\""); v2 != nil {
+						return v2
+					}
+				}
+				if v != nil {
+					return v
+				}
+				parts := strings.SplitN(res, "\x01", 4)
+				log = append(log, fmt.Sprintf("require(%q) with an injected error (fired: %v) -> %s %s", name, faultFired, parts[0], firstLine(parts[1])))
+				if faultFired {
+					st.Fault("raise_in_loader")
+				}
+				// whatever happened: modules that were cached before are still cached with the identical value,
+				// and nothing that is not a module value sits in package.loaded as a success
+				for _, n := range names {
+					d, v := runLua(fmt.Sprintf("return desc(package.loaded[%q])", n))
+					if v != nil {
+						return v
+					}
+					if b := before[n]; b != "" && b != "false" && d != b && faultFired {
+						return fail("cache-mismatch", "after a require that was hit by an injected error, package.loaded[%q] changed from %s to %s although it was loaded before", n, b, d)
+					}
+					switch {
+					case d == "nil":
+						ms.loaded[n] = ""
+					case d == "userdata":
+						ms.loaded[n] = ""
+						ms.poisoned[n] = true
+					case strings.HasPrefix(d, "T:") || strings.HasPrefix(d, "S:str:") || strings.HasPrefix(d, "D:1") || d == "true":
+						ms.loaded[n] = d
+						if faultFired {
+							ms.poisoned[n] = false
+						}
+					default:
+						return fail("wrong-result", "package.loaded[%q] holds %s, which no loader produced", n, d)
+					}
+				}
+				c, v := runLua("return tostring(CNT)")
+				if v != nil {
+					return v
+				}
+				fmt.Sscan(c, &cnt)
+				continue
+			}
 			mr := &modelRun{st: ms, cnt: &cnt}
 			pre := ms.loaded[name]
 			wasPoisoned := ms.poisoned[name]
